@@ -28,7 +28,7 @@ def kernel_differential(rng, n):
         if rng.random() < 0.1:
             times = [[0] * nj for _ in range(5)]
         cases.append({'durs': durs, 'args': args, 'times': times, 'counts': [rng.randrange(0, 9) for _ in range(nj)]})
-    d = os.path.join(WORK, 'c18k')
+    d = os.path.join(WORK, 'c18k.%d' % os.getpid())          # per process: quick and thorough may run at the same time
     os.makedirs(d, exist_ok=True)
     json.dump(cases, open(os.path.join(d, 'cases.json'), 'w'))
     env = dict(os.environ, PYTHONPATH=f"{REPO}:{os.path.join(VERIF, 'harness')}", PYTHONHASHSEED='0')
